@@ -4,4 +4,5 @@ from harness.props import c07
 
 
 def main(tier, seed, replay=None):
-    return c07.main(tier, seed, replay, prop='C08', oracles=(pc.oracle_c08,))
+    return c07.main(tier, seed, replay, prop='C08', oracles=(pc.oracle_c08,),
+                    proofs=['theories/Pool/Inv.v', 'theories/Pool/Rounds.v', 'theories/Pool/NoSpurious.v'])
